@@ -67,8 +67,32 @@ static void check_prefix0(const Seed& s, size_t n, int stream_kind, std::vector<
 // A cut read is followed by a complete read of a small valid file (unknown members with nested values, read in the same thread): whatever the
 // failed read left behind - in the reader, the decoder, or anything they share - must not change what the next, independent read returns.
 static const Seed* g_canary = nullptr;
+// Two readers alive at the same time on one thread - one over the full file, one over the prefix - advanced in turns (the natural way to compare a
+// prefix with its file block by block): each must return what it returns when it is the only reader. Decoders are independent instances; whatever
+// they share (a hoisted window, a cached cursor) shows here and nowhere in one-reader-at-a-time use.
+static void check_lockstep(const Seed& s, size_t n, std::vector<V>& out) {
+    std::string pre = s.bytes.substr(0, n); size_t expect_blocks = 0; for (auto& b : s.rf.blocks) if (b.end <= n) expect_blocks++;
+    std::string where = s.name + " prefix " + std::to_string(n) + "/" + std::to_string(s.bytes.size()) + " read in turns with the full file";
+    std::istringstream isf(s.bytes), isp(pre), isc(g_canary ? g_canary->bytes : std::string());
+    try {
+        std::unique_ptr<CDNS::CdnsReader> rc; if (g_canary) rc.reset(new CDNS::CdnsReader(isc));   // a third reader over a different file: opened first, read after the other two
+        CDNS::CdnsReader rf(isf); CDNS::CdnsReader rp(isp); bool eof_f = false, eof_p = false, done_f = false, done_p = false; size_t got_f = 0, got_p = 0; std::string end_p;
+        for (size_t turn = 0; turn < s.rf.blocks.size() + 2 && !(done_f && done_p); turn++) {
+            if (!done_f) { CDNS::CdnsBlockRead b = rf.read_block(eof_f); if (eof_f) done_f = true; else { if (got_f >= s.lib_blocks.size() || lib::block_dump(b) != s.lib_blocks[got_f]) { out.push_back({"lockstep|full-file-reader-disturbed", where + ": block " + std::to_string(got_f) + " of the FULL file differs from what a lone reader returns"}); return; } got_f++; } }
+            if (!done_p) { try { CDNS::CdnsBlockRead b = rp.read_block(eof_p); if (eof_p) { done_p = true; end_p = "eof"; } else { if (got_p >= expect_blocks) { out.push_back({"lockstep|fabricated-block", where + ": the prefix reader returned block #" + std::to_string(got_p + 1) + " although only " + std::to_string(expect_blocks) + " are complete"}); return; }
+                                 if (lib::block_dump(b) != s.lib_blocks[got_p]) { out.push_back({"lockstep|block-differs", where + ": block " + std::to_string(got_p) + " of the prefix differs from the same block of the full file"}); return; } got_p++; } }
+                           catch (CDNS::CdnsDecoderEnd&) { done_p = true; end_p = "end"; } }
+        }
+        if (rc) { std::vector<std::string> cb; std::string cend; try { bool e = false; for (;;) { CDNS::CdnsBlockRead b = rc->read_block(e); if (e) { cend = "eof"; break; } cb.push_back(lib::block_dump(b)); if (cb.size() > g_canary->lib_blocks.size()) break; } } catch (std::exception& x) { cend = x.what(); }
+                  if (cend != "eof" || cb != g_canary->lib_blocks) out.push_back({"lockstep|third-reader-disturbed", where + ": a reader over another valid file (" + g_canary->name + "), opened before the two and read after them, returns " + std::to_string(cb.size()) + " blocks and ends with " + cend}); }
+        if (got_f != s.lib_blocks.size() || !done_f) out.push_back({"lockstep|full-file-reader-disturbed", where + ": the full-file reader returned " + std::to_string(got_f) + " of " + std::to_string(s.lib_blocks.size()) + " blocks"});
+        if (got_p != expect_blocks) out.push_back({"lockstep|missing-block", where + ": the prefix reader returned " + std::to_string(got_p) + " blocks, " + std::to_string(expect_blocks) + " are complete"});
+        else if (n < s.bytes.size() && end_p != "end") out.push_back({"lockstep|no-end-of-input", where + ": after the complete blocks expected CdnsDecoderEnd, got " + (end_p.empty() ? std::string("nothing") : end_p)});
+    } catch (std::exception& e) { out.push_back({"lockstep|wrong-error", where + ": " + e.what()}); }
+}
 static void check_prefix(const Seed& s, size_t n, int stream_kind, std::vector<V>& out) {
     check_prefix0(s, n, stream_kind, out);
+    if (stream_kind == 0 && n >= s.rf.header_end && s.lib_error.empty() && (n % W <= 1 || W - n % W <= 1 || n + 1 >= s.bytes.size() || std::any_of(s.rf.blocks.begin(), s.rf.blocks.end(), [&](const auto& b) { return b.end == n || b.end == n + 1; }))) check_lockstep(s, n, out);
     if (!g_canary || n == s.bytes.size()) return;
     lib::LibFile lf = lib::read_bytes(g_canary->bytes);
     if (lf.end != "eof" || lf.blocks != g_canary->lib_blocks || lf.preamble != g_canary->lib_preamble)
@@ -527,6 +551,7 @@ int main(int argc, char** argv) {
                     for (auto& sd : seeds) if (sd.first == sn) bytes = make_mapbomb(sd.second, idx, k, dd); if (bytes.empty()) return done(2); }
                 else if (d.rfind("manyaec", 0) == 0) { int wf = d[7] - '0'; size_t pos = d.find("-n"); bytes = make_manyaec(strtoull(d.c_str() + pos + 2, nullptr, 10), wf); }
                 else if (d.rfind("exactk", 0) == 0) { size_t k = strtoull(d.c_str() + 6, nullptr, 10); std::string f = seeds::exact((k ? k : 1) * W + 50); bytes = f.substr(0, k * W); }
+                else if (hx.empty()) bytes.clear();   // the empty input (trunc-<seed>-0, raw-empty) replays as it is
                 else return done(2);
             } else bytes = unhex(hx);
             Pool rp(1, 60);
